@@ -219,6 +219,22 @@ pub fn cold_start_lines(seed: u64) -> Vec<String> {
                 let lib = libs()[t.0];
                 let mut out = Vec::new();
                 let _ = b.wait();
+                // odd threads start with an import (so that some thread's FIRST call is a deserialisation)
+                if i % 2 == 1 {
+                    let r = crate::engine::guarded(|| {
+                        let a = lib.pk_from_bytes(&e.0).map(|k| k.to_bytes());
+                        let b = lib.sk_from_bytes(&e.1).map(|k| k.to_bytes());
+                        (a, b)
+                    });
+                    match r {
+                        Err(pi) => out.push(format!("thread {i} set {}: panic {}", lib.p().id, pi.key())),
+                        Ok((a, b)) => {
+                            if a.as_ref().ok() != Some(&e.0) || b.as_ref().ok() != Some(&e.1) {
+                                out.push(format!("thread {i} set {}: import round trip differs (a key deserialised as the first call of a thread does not serialise back to its bytes)", lib.p().id));
+                            }
+                        }
+                    }
+                }
                 let r = crate::engine::guarded(|| {
                     let (pk, sk) = lib.keygen_from_seed(&t.1);
                     let mut rng = TestRng::replay(&t.3);
@@ -249,21 +265,23 @@ pub fn cold_start_lines(seed: u64) -> Vec<String> {
     handles.into_iter().flat_map(|h| h.join().unwrap_or_else(|_| vec!["thread panicked outside the guard".to_string()])).collect()
 }
 
-fn cold_start(ctx: &Ctx, rep: &mut Report) {
+/// Start `vcheck coldstart` in fresh processes; report the first mismatch line accepted by `mine` (each property
+/// looks at the call kind it speaks about: key generation C04, signature C03, round-trip verdict C01).
+pub fn cold_start(ctx: &Ctx, rep: &mut Report, mine: &[&str]) {
     let sub = "cold_start_concurrent";
     let Ok(exe) = std::env::current_exe() else {
         rep.note(format!("{sub}: cannot locate own executable; skipped"));
         return;
     };
-    let runs = ctx.n(8, 64);
+    let runs = ctx.n(24, 128);
     for r in 0..runs {
-        let seed = crate::engine::hash_of(&(ctx.seed, "cold-run", r));
+        let seed = crate::engine::hash_of(&(ctx.seed, "cold-run", rep.prop.clone(), r));
         match std::process::Command::new(&exe).args(["coldstart", &seed.to_string()]).output() {
             Ok(o) if o.status.success() => {
                 let st = rep.stats(sub);
                 st.evals(16);
                 st.nontrivial_enumerated += 16;
-                let lines: Vec<String> = String::from_utf8_lossy(&o.stdout).lines().map(str::to_string).collect();
+                let lines: Vec<String> = String::from_utf8_lossy(&o.stdout).lines().filter(|l| mine.iter().any(|m| l.contains(m))).map(str::to_string).collect();
                 if let Some(l) = lines.first() {
                     if !rep.violations.iter().any(|v| v.sub == sub) {
                         let key: String = l.split(':').nth(1).unwrap_or("mismatch").trim().chars().take(40).collect();
@@ -288,9 +306,10 @@ pub fn run(ctx: &Ctx, rep: &mut Report) {
     for e in gen::sig_corpus() {
         let (key, msg, rnd) = gen::xofsearch::sig_tuple_specs(e.index);
         ext.push(Case { set: match e.set { 44 => 0, 65 => 1, _ => 2 }, sk: SkSpec::Generated(key), msg, ctx: BytesSpec::empty(), mode: 0, rnd, pre_draw: 1 });
-        rep.stats("sample_in_ball_extreme_signatures").maximum(&format!("max_consecutive_rejections_set{}", e.set), i64::from(e.sib_max_run));
+        rep.stats("extreme_signatures").maximum(&format!("max_consecutive_rejections_set{}", e.set), i64::from(e.sib_max_run));
+        rep.stats("extreme_signatures").maximum(&format!("max_loop_iterations_set{}", e.set), i64::from(e.iterations));
     }
-    crate::engine::run_list(rep, "sample_in_ball_extreme_signatures", &ext, check);
+    crate::engine::run_list(rep, "extreme_signatures", &ext, check);
     // very long messages, every mode
     let mut long: Vec<Case> = Vec::new();
     for (li, len) in LONG_MSG_LENS.iter().enumerate() {
@@ -304,7 +323,7 @@ pub fn run(ctx: &Ctx, rep: &mut Report) {
         }
     }
     crate::engine::run_list(rep, "long_messages", &long, check);
-    cold_start(ctx, rep);
+    cold_start(ctx, rep, &["signature differs", "signing failed", "panic"]);
     crate::props::history::run(ctx, rep, 2500, 60000);
 }
 
@@ -312,5 +331,5 @@ pub fn replay(_ctx: &Ctx, sub: &str, case: &Value) -> Option<CheckResult> {
     if sub == "raw_bytes" {
         return crate::fuzzglue::replay_raw("C03", case);
     }
-    (sub == "generated" || sub == "sample_in_ball_extreme_signatures" || sub == "long_messages").then(|| check(&from_case::<Case>(case), &mut Stats::default()))
+    (sub == "generated" || sub == "extreme_signatures" || sub == "long_messages").then(|| check(&from_case::<Case>(case), &mut Stats::default()))
 }
